@@ -167,6 +167,19 @@ def run(report, tier):
         batch += part.pop('batch')
         report.merge(part)
     validate_traces(report, batch, 'C06 real solvers', keep=())
+    # edits between solves (bounds changed behind the problem's back, constraints added, objective replaced) with the real
+    # solvers: histories of the Solve model graph; whatever is reported OPTIMAL must be feasible for the CURRENT bounds
+    from . import c13
+    from .. import histgraph
+    g = histrun.history_graph(report)
+    hs = [h for h in g.triples() if h[-1]['op'] == 'Solve' and sum(1 for o in h if o['op'] == 'Solve') >= 2]
+    sample, report.extra['strata (fill, edit, observation) covered'] = histgraph.stratified(hs, 300 if tier == 'quick' else 4000, common.rng('C06h'), extra=0.0)
+    batch = []
+    for part in histrun.parallel(c13.replay_chunk, sample):
+        batch += part.pop('batch')
+        part['violations'], part['counts'] = {}, {}      # the fresh-problem comparison belongs to C13
+        report.merge(part)
+    validate_traces(report, batch, 'C06 solves after edits', keep=())
     from .. import suitetrace
     suitetrace.validate(report, keep=())
     from .. import apirun
